@@ -32,6 +32,18 @@ class P:
 
 def deco(f):
     return f
+
+def deco_n(i):
+    return lambda f: f
+
+@guppy
+def note(i: int) -> int:
+    result("note", i)
+    return i
+
+@guppy
+def sub3(a: int, b: int, c: int) -> int:
+    return a * 100 + b * 10 + c
 '''
 
 # (name, kind, lines).  x: int (1 or 7), c: bool are parameters of the host.
@@ -165,6 +177,69 @@ for _n, _setup, _e in _EXPRS:
     for _pn, _pf in _POSITIONS.items():
         _kind = "must-reject" if _n in ("await", "yield") else "observe"
         CONSTRUCTS.append((f"{_n}@{_pn}", _kind, [*_setup, *_pf(_e)]))
+
+# CARDINALITY x POSITION of optional clauses inside list-valued syntax: a rejection written for "the"
+# default / "the" item / "the" keyword may only look at the first, the last or a list of length one.
+import itertools as _it
+
+# default values: k parameters, the last d of them with defaults whose evaluation is observable in
+# CPython at definition time (defaults are evaluated when the `def` statement runs)
+for _k in (1, 2, 3):
+    for _d in range(1, _k + 1):
+        _ps = [f"p{i}: int" + (f" = note({i})" if i >= _k - _d else "") for i in range(_k)]
+        _call = ", ".join(["x"] * _k)
+        CONSTRUCTS.append((f"defaults:{_d}-of-{_k}", "observe",
+                           [f"def g({', '.join(_ps)}) -> int:", f"    return {' + '.join(f'p{i}' for i in range(_k))}",
+                            f'result("g", g({_call}))']))
+        CONSTRUCTS.append((f"defaults-omitted-at-call:{_d}-of-{_k}", "observe",
+                           [f"def g({', '.join(_ps)}) -> int:", f"    return {' + '.join(f'p{i}' for i in range(_k))}",
+                            f'result("g", g({", ".join(["x"] * (_k - _d))}))']))
+for _d in (1, 2):
+    CONSTRUCTS.append((f"kwonly-defaults:{_d}", "observe",
+                       [f"def g(a: int, *, {', '.join(f'k{i}: int = note({i})' for i in range(_d))}) -> int:", "    return a", 'result("g", g(x))']))
+# decorators on nested functions: 1..3, evaluated (observably) at definition time
+for _k in (1, 2, 3):
+    CONSTRUCTS.append((f"decorators:{_k}", "observe",
+                       [*(f"@deco_n(note({i}))" for i in range(_k)), "def g(a: int) -> int:", "    return a + 1", 'result("g", g(x))']))
+# keyword arguments: c keywords, at the end of 0..2 positional arguments
+for _npos, _nkw in _it.product((0, 1, 2), (1, 2, 3)):
+    if _npos + _nkw <= 3:
+        _names = ["a", "b", "c"]
+        _args = ["x"] * _npos + [f"{_names[i]}={i + 2}" for i in range(_npos, _npos + _nkw)]
+        CONSTRUCTS.append((f"keywords:{_npos}-positional-{_nkw}-keyword", "observe", [f'result("k", sub3({", ".join(_args)}))']))
+        # ... and with surplus keywords on top of a complete positional call
+        CONSTRUCTS.append((f"keywords-surplus:{_nkw}", "observe",
+                           [f'result("k", sub3(x, 1, 2, {", ".join(f"z{i}={i}" for i in range(_nkw))}))']))
+# `as` clauses of modifier items: every non-empty subset of positions in lists of 1..3 items
+_MODS = ["dagger", "power(2)", "control(cq)"]
+for _n in (1, 2, 3):
+    for _items in _it.permutations(_MODS, _n):
+        for _mask in range(1, 2 ** _n):
+            _its = [it + (f" as w{i}" if _mask >> i & 1 else "") for i, it in enumerate(_items)]
+            _nm = "+".join(it.split("(")[0] for it in _items) + ":as@" + "".join(str(i) for i in range(_n) if _mask >> i & 1)
+            CONSTRUCTS.append((f"with-as:{_nm}", "must-reject",
+                               ["cq = qubit()", "w0 = 0", "w1 = 0", "w2 = 0",
+                                f"with {', '.join(_its)}:", "    pass", "discard(cq)", 'result("w", w0 + w1 + w2)']))
+# chained assignment with 2..3 targets, delete / global with several names, several except handlers,
+# several generators / conditions in a comprehension
+CONSTRUCTS += [
+    ("chained-assignment:3", "observe", ["a = b = d = x + 1", 'result("a", a)', 'result("b", b)', 'result("d", d)']),
+    ("chained-assignment:tuple-and-name", "observe", ["t = (a, b) = (x, 2)", 'result("a", a)', 'result("t", t[1])']),
+    ("del-two-names-then-use-second", "observe", ["y = x", "z = x", "del y, z", 'result("z", z)']),
+    ("del-two-names-then-use-first", "observe", ["y = x", "z = x", "del z, y", 'result("z", z)']),
+    ("try-two-handlers", "observe", ["try:", '    result("try", 1)', "except ValueError:", '    result("exc", 2)', "except Exception:", '    result("exc", 3)']),
+    ("comprehension-two-generators", "observe", ["ys = array(i + j for i in range(2) for j in range(3))", 'result("n", len(ys))']),
+    ("comprehension-two-conditions", "observe", ["ys = array(i for i in range(6) if i != x if i != 2)", 'result("n", len(ys))']),
+    ("starred-call-args:middle", "observe", ["t = (x, 2)", 'result("s", sub3(1, *t))']),
+    ("starred-call-args:two", "observe", ["t = (x,)", "u = (2, 3)", 'result("s", sub3(*t, *u))']),
+    ("global-two-names", "observe", ["global GV, GW", "GW = x + 1", 'result("gw", GW)']),
+    ("return-with-several-values-in-none-function", "observe", ["if x > 5:", "    return 1, 2", 'result("r", 1)']),
+    ("annotated-assignment-to-tuple-element", "observe", ["t = (x, 2)", "t[0]: int = 5", 'result("t", t[0])']),
+    ("augmented-assignment-to-tuple-element", "observe", ["t = (x, 2)", "t[0] += 5", 'result("t", t[0])']),
+    ("assert-with-side-effect-message", "observe", ['assert x > 5, note(1)', 'result("a", 1)']),
+    ("lambda-default", "observe", ["g = lambda v, w=note(1): v + w", 'result("l", g(x))']),
+    ("nested-def-annotation-evaluated", "observe", ["def g(a: int, b: 'int' = 3) -> 'int':", "    return a + b", 'result("g", g(x, 1))']),
+]
 
 PLACEMENTS = {
     "body": lambda ls: ls,
